@@ -125,7 +125,7 @@ def run(tier, seed):
                      "observed": obs[idx]["out"], "exit": obs[idx]["exit"], "stderr": res[idx]["stderr"][:500], "tlc": diag})
     st = b3.selftest_corruption("VerbsAggregateObs", [o for o in obs if o["c"]["v"] == "count" and o["c"]["g"]])
     cov["obs_selftest"] = st
-    if not st["ok"]:
+    if st["ok"] is False:
         raise vlib.Inconclusive("observation self-test failed: %r" % st)
 
     def mutate(a):       # a wrong number in the last field of the first record must be noticed, too
@@ -133,7 +133,7 @@ def run(tier, seed):
     st2 = b3.selftest_corruption("VerbsAggregateObs", [o for o in obs if o["c"]["v"] == "stats1" and len(o["s"]) >= 2
                                                        and o["c"]["a"][0]["k"] == "count"], mutate=mutate)
     cov["obs_selftest_value"] = st2
-    if not st2["ok"]:
+    if st2["ok"] is False:
         raise vlib.Inconclusive("observation self-test (value) failed: %r" % st2)
     per_verb = {}
     for x in cases:
